@@ -173,7 +173,7 @@ def sk_adamantane():
     return 10, e
 
 
-FAMILIES = ["cage_mixture", "labelled_isolated", "random_sparse", "random_dense", "tree", "path", "cycle", "ladder", "comb", "complete", "bipartite",
+FAMILIES = ["cage_mixture", "labelled_isolated", "charged_dt", "random_sparse", "random_dense", "tree", "path", "cycle", "ladder", "comb", "complete", "bipartite",
             "union_identical", "prism", "cube", "petersen", "star", "isolated", "rare_elements", "partial_orbit",
             "wl_hard", "peptide", "two_components"]
 
@@ -308,6 +308,20 @@ def gen_mol(rng: random.Random, max_n=24, family=None) -> Mol:
         for _ in range(extra):
             syms.append(rng.choice(["Cl", "Na", "H", "O", "Br"]))
         return decorate(len(syms), e, rng, syms=syms, label_p=0.0 if rng.random() < 0.7 else 0.08, family=fam + ":" + kind)
+    if fam == "charged_dt":
+        # a D or T atom that carries a charge or is a doublet radical (so that a V2000 file can give it a
+        # non-zero atom-block charge code), next to ordinary atoms with the same charge / radical
+        n = rng.randint(2, 5)
+        syms = ["H"] + [rng.choice(["H", "C", "O", "N"]) for _ in range(n - 1)]
+        m = decorate(n, sk_tree(n, rng), rng, syms=syms, label_p=0.0, family=fam)
+        m.atoms[0]["mass"] = rng.choice([2, 3])
+        kind = rng.choice(["chg", "rad"])
+        val = rng.choice([1, -1, 2]) if kind == "chg" else 2
+        m.atoms[0][kind] = val
+        for a in m.atoms[1:]:
+            if rng.random() < 0.6:
+                a[kind] = val
+        return m
     if fam == "labelled_isolated":
         # one to three bond-free atoms, most of them carrying an isotope and/or radical label
         n = rng.choice([1, 1, 1, 2, 3])
